@@ -36,10 +36,10 @@ pub fn seg_alphabet(f: Family, level: u8) -> Vec<Vec<u8>> {
 	if level >= 1 {
 		// "%2E%2E": an ordinary segment that only DECODES to ".."
 		// "...", "a..": ordinary segments that merely END with ".."
-		v.extend(["b", "%2E", "%2E%2E", "%41", "A", "~", "x@y", "...", "a.."]);
+		v.extend(["b", "%2E", "%2E%2E", "%41", "A", "~", "x@y", "...", "a..", "%FF"]);
 	}
 	if level >= 2 {
-		v.extend(["%2F", "%FF", "%c3%a9", ".a", ";=+"]);
+		v.extend(["%2F", "%c3%a9", ".a", ";=+"]);
 	}
 	if f == Family::Iri {
 		v.push("é");
@@ -304,6 +304,22 @@ pub fn special_scalar_texts() -> Vec<Vec<u8>> {
 		for tpl in ["X", "s:X", "//X", "//X@X:1/X", "s://h/X?X#X", "Xa", "aX", "aXa", "?X", "#X", "s:?X", "s:#X", "X/X", "/X", "s:a/X:b"] {
 			out.push(tpl.replace('X', &x.to_string()).into_bytes());
 		}
+	}
+	// every shape of the IPv6address production (n groups, "::", m groups; with and without an IPv4
+	// tail) and IPvFuture literals: the two families have separate copies of these rules
+	for n in 0..=7usize {
+		for m in 0..=(7 - n) {
+			let left = vec!["1"; n].join(":");
+			let right = vec!["2"; m].join(":");
+			out.push(format!("s://[{left}::{right}]/").into_bytes());
+			if m >= 1 {
+				let r4 = if m > 1 { format!("{}:1.2.3.4", vec!["2"; m - 1].join(":")) } else { "1.2.3.4".to_string() };
+				out.push(format!("s://[{left}::{r4}]/").into_bytes());
+			}
+		}
+	}
+	for t in ["s://[1:2:3:4:5:6:7:8]/", "s://[1:2:3:4:5:6:1.2.3.4]/", "s://[v1.a]/", "s://[V1f.a:b]/", "s://[v1.x:y]/", "s://[::1.2.3.256]/"] {
+		out.push(t.as_bytes().to_vec());
 	}
 	out
 }
